@@ -14,7 +14,7 @@ CORPUS_NOTE = "Trusts the reference interpreter (cpp/ref/peg_ref.hpp, no PEGTL i
 TEXT = {
     # id: (technique, level text, level note, design ref)
     "C01": ("reference-model monitor: generated grammar corpus (context matrix + random) run under a match()-wrapping control, compared with an independent PEG interpreter; clang ASan+UBSan",
-            "Exploration: every combinator x sub-rule slot x inherited rewind mode x gadget (consume-then-fail, nullable, raising ...) of the context matrix and seeded random grammars are compiled against the real headers and run on all short inputs; result and consumed length must equal the reference under three void-action attachments and, without monitor, under all four apply_mode x rewind_mode combinations. Held = no disagreement on the executions produced; the evidence lists the (rule, mode, outcome, moved-inside) tuples actually observed.",
+            "Exploration: every combinator x sub-rule slot x inherited rewind mode x gadget (consume-then-fail, nullable, raising ...) of the context matrix, the filler matrix (neighbours that never consume - eof, success, failure -, always consume, or are the very same type as the gadget: sor< X, X >) and seeded random grammars are compiled against the real headers and run on all short inputs; result and consumed length must equal the reference under three void-action attachments and, without monitor, under all four apply_mode x rewind_mode combinations. Held = no disagreement on the executions produced; the evidence lists the (rule, mode, outcome, moved-inside) tuples actually observed.",
             CORPUS_NOTE, "5/C01"),
     "C02": ("trace-specification monitor at every Control<Rule>::match boundary (cursor snapshot on entry/exit, bump hook tells whether the cursor moved inside)",
             "Exploration: pure trace monitor, needs no model: every invocation (nested and hidden internal rules included) of every corpus run is checked for 'false under rewind_mode::required => cursor (pointer, byte, line, column) unchanged', 'look-ahead never moves', 'success never moves backwards', with and without an action attached to the observed rule. The evidence counts, per rule type, the failing required-mode invocations that had moved the cursor internally - the only ones that can violate.",
@@ -26,25 +26,25 @@ TEXT = {
             "Exploration: corpus grammars with discard at documented-safe points and require<N>/everything atoms; every input through memory_input eager/lazy, string/read/mmap/file/argv inputs, istream/cstream inputs and buffer_input with Chunk 1, 3, 64 x six short-read schedules x every capacity from Chunk to need+2. (result, consumed, raw action trace with spans and positions, error text) must equal the baseline; std::overflow_error must occur exactly when the largest offset+amount of any require() exceeds the capacity.",
             CORPUS_NOTE + " Readers are assumed to follow the documented contract.", "5/C07"),
     "C04": ("transactional event-log monitor (action log truncated when an enclosing invocation fails) compared with the reference derivation, plus per-invocation span/enablement assertions",
-            "Exploration: void, vetoing and throwing apply/apply0 actions (deterministic predicate of rule and span) on arbitrary visible rules, apply<>/apply0<>/if_apply<>, enable/disable/at/not_at nesting, eager and lazy inputs. The surviving action log must equal the reference's action events in order; every raw invocation must carry begin = its invocation's entry cursor and end = parse cursor, must not happen inside look-ahead/disabled sections, and a veto must end the invocation with false and a restored cursor.",
+            "Exploration: void, vetoing and throwing apply/apply0 actions (deterministic predicate of rule and span; all derive from require_apply / require_apply0) on arbitrary visible rules, apply<>/apply0<>/if_apply<> with void, vetoing and mixed class actions, enable_action / disable_action / change_* attached through Action< Rule >::match, enable/disable/at/not_at nesting, eager and lazy inputs. The surviving action log must equal the reference's action events in order; every raw invocation must carry begin = its invocation's entry cursor and end = parse cursor, must not happen inside look-ahead/disabled sections, and a veto must end the invocation with false and a restored cursor.",
             CORPUS_NOTE + " Grammars whose documented expansion repeats a sub-rule inside a predicate are not run with vetoing/throwing attachments.", "5/C04"),
     "C05": ("reference-model + trace monitor: exception kind, blamed rule, nesting and try_catch conversion against the reference interpreter; raise hooks give the attempt window for the position check",
-            "Exploration: must-family rules, raise, all try_catch_* variants (parse_error / std / any / typed) and throwing actions (std-derived and non-std types) nested in predicates, repetitions and choices. The exception reaching parse()'s caller must have the reference's kind, message (blamed rule), nesting depth; its position must lie inside the failed attempt observed by the wrapper, equal the position function of the prefix, what() must be source:line:column: message; foreign exceptions must arrive with the serial they were thrown with.",
-            CORPUS_NOTE + " must_if controls with custom messages are not generated yet.", "5/C05"),
+            "Exploration: must-family rules, raise, all try_catch_* variants (parse_error / std / any / typed) and throwing actions (std-derived and non-std types) nested in predicates, repetitions and choices. The exception reaching parse()'s caller must have the reference's kind, message (blamed rule), nesting depth; its position must lie inside the failed attempt observed by the wrapper, equal the position function of the prefix, what() must be source:line:column: message; also under a must_if control (raise from the failure hook, message precedence) and with named rules carrying error_message, including as the directly guarded rule of try_catch_*_raise_nested (custom outer message AND still a nested exception); foreign exceptions must arrive with the serial they were thrown with.",
+            CORPUS_NOTE + " Message precedence checked: must_if message, then Rule::error_message, then the default text naming the rule (names verified with g++ and clang by the c05_names driver).", "5/C05"),
     "C06": ("invariant monitor: every observable position compared with a ten-line position function of the consumed prefix",
-            "Exploration: in.position() at every control hook, eager counters at every invocation entry/exit, action_input::position(), parse_error and parse-tree node positions of every corpus run are compared with P(prefix) = (bytes, 1 + count of Eol::ch, 1 + bytes since the last), for eager and lazy tracking (thorough: all five eol policies).",
+            "Exploration: in.position() at every control hook, eager counters at every invocation entry/exit, action_input::position(), parse_error and parse-tree node positions of every corpus run are compared with P(prefix) = (bytes, 1 + count of Eol::ch, 1 + bytes since the last), for eager and lazy tracking (atoms profile: all five eol policies). A separate driver constructs eager and lazy memory_inputs with six initial (byte, line, column) values through both constructors that take one and compares action-input positions, in.byte(), parse_error and final positions with the position function started there, and eager with lazy observation by observation.",
             "Trusts the position function; UTF-16/32 and multi-byte binary rules excluded as the property says. Known findings: lazy tracking inside rematch sub-inputs.", "5/C06"),
     "C08": ("online stack automaton over the hook stream, cross-checked with the outcome seen by the match() wrapper of the same invocation",
             "Exploration: start exactly once before any nested invocation; exactly one closing hook that agrees with the outcome (success<->true, failure<->false, unwind<->exception when defined); apply/apply0 after the last nested invocation and before the close; raise only from must/raise rules or the rule's own failure hook. Runs end in exceptions from must rules and from actions at arbitrary depth; controls with and without unwind() and with hooks for internal rules.",
-            "Controls that replace match() wholesale are out of reach; the coverage/tracer client-level run is part of the thorough tier only.", "5/C08"),
+            "Controls that replace match() wholesale are out of reach. Client-level runs: the monitor control wrapped by state_control under coverage<> (counter balance start = success + failure + unwind per rule and branch) and the tracers, also around a must_if control whose failure hook throws, and with the whole run started during stack unwinding (std::uncaught_exceptions() > 0).", "5/C08"),
     "C09": ("reference-model monitor: the reference interpreter evaluates the documented expansion ([Equivalent] clauses of doc/Rule-Reference.md), the real rule runs beside it",
             "Exploration: every listed convenience rule is instantiated (context matrix: per sub-rule slot and inherited rewind mode; random: arbitrary nesting) with sub-grammars that consume before failing, are nullable, or raise, repetition bounds 0..3; result, consumed length and the blamed rule of a global failure must equal the desugared expression's.",
             CORPUS_NOTE + " rep_opt< 0, R > with a single rule does not compile on the pinned tree and cannot be run.", "5/C09"),
     "C10": ("reference-model monitor with enumerated candidate units on exact-size ASan buffers: independent table-driven codecs and set tables",
-            "Exploration with exhaustive sub-spaces: every byte for every ASCII/abnf/uint8 rule (all 256 masks), all 2^16 two-byte inputs for string/istring rules, all 1-3 byte UTF-8 inputs, every code point for every UTF family, all 2^16 UTF-16 units and uint16 values; thorough: all 2^30 four-byte UTF-8 inputs with lead >= 0xC0, all 2^32 UTF-16 pairs and UTF-32 units in both byte orders. (matched, consumed) must equal (member, length) from the independent codec.",
+            "Exploration with exhaustive sub-spaces: every byte for every ASCII/abnf/uint8 rule (all 256 masks), all 2^16 two-byte inputs for string/istring rules, all 1-3 byte UTF-8 inputs, every code point for every UTF family, all 2^16 UTF-16 units and uint16 values; thorough: all 2^30 four-byte UTF-8 inputs with lead >= 0xC0, all 2^32 UTF-16 pairs and UTF-32 units in both byte orders. (matched, consumed) must equal (member, length) from the independent codec; every fourth judgement of a multi-byte encoding on two or more bytes is repeated through a buffer_input fed one byte per read.",
             "Trusts cpp/oracles/utf_codec.hpp, unit_sets.hpp, ascii_classes.hpp; uint32/uint64 rules are boundary + random only; ICU rules not covered.", "5/C10"),
     "C11": ("doubly confirmed witness search: reference interpreter's exact cycle detection + fuel-limited monitored real run, against analyze< G >()",
-            "Exploration: ~1800 systematically ill-formed grammars (quick: a seeded half) that put a cycle through every rule type with analyze_traits and every sub-rule slot (direct, indirect, behind a consuming prefix, behind a second sor alternative, nullable body under a repetition) with nullable / predicate / failing / consuming neighbours; a grammar with analyze() == 0 for which some input up to the bound makes the reference report a cycle without progress and the real parser exceed its invocation / nesting budget is a violation.",
+            "Exploration: ~2000 systematically ill-formed grammars (quick: a seeded 900), 133 progress cells (a repetition over a rule the analysis takes to consume: certified, so the fuel-limited real run must terminate within a budget derived from the reference's effort on EVERY enumerated input) and 28 name cells (two unnamed instantiations equal up to a punctuation character argument, built with clang and g++ because analyze() identifies rules by demangled name). The ill-formed grammars that put a cycle through every rule type with analyze_traits and every sub-rule slot (direct, indirect, behind a consuming prefix, behind a second sor alternative, nullable body under a repetition) with nullable / predicate / failing / consuming neighbours; a grammar with analyze() == 0 for which some input up to the bound makes the reference report a cycle without progress and the real parser exceed its invocation / nesting budget is a violation.",
             "'No input' is bounded by the explored input lengths; false positives of the analysis are not violations.", "5/C11"),
     "C12": ("reference-model monitor: parse_tree::parse (with the match()-wrapping control underneath) vs the reference derivation filtered by the same selector table",
             "Exploration: corpus grammars incl. recursion, the context matrix and chains of 5..11 unselected rules around a selected leaf (is_leaf<8> boundary); selectors = all / random subsets / remove_content, fold_one, discard_empty / sparse; no, void, vetoing and throwing actions. Tree (type, begin, end, nesting, order, content kept) must equal the visible successful matches of the reference derivation with transformers applied bottom-up; null tree <=> no success; contents inside the input.",
@@ -56,22 +56,22 @@ TEXT = {
             "Exploration with exhaustive sub-spaces: all digit strings up to width+1 (8-bit) / width (16-bit) with sign and trailer variants, boundary neighbourhoods of every cutoff, 10^k and type limit for 32/64-bit, 93 explicit maxima; every rule/action form for all eight fixed-width types, in four calling contexts (required, optional, opt<R>, sor<R,mark>) and two buffer placements. Acceptance, consumed length, stored value, overflow report, cursor after local failure and reads past the end are checked.",
             "Trusts cpp/oracles/bigdec.hpp; 32/64-bit values away from the structured neighbourhoods are sampled.", "5/C15"),
     "C14": ("differential monitor: real json::text + eof vs an independent iterative RFC 8259 recogniser on exact-size / poisoned-tail buffers",
-            "Exploration: all strings up to length 6 over a 15-symbol JSON alphabet, up to 4 over 43 symbols, seeded grammar-derived documents with single/double-edit mutations from a hostile byte set (all invalid-UTF-8 classes), number/literal/escape families, deep nesting; accept/reject must agree and no exception of any type may escape.",
+            "Exploration: all strings up to length 6 over a 15-symbol JSON alphabet, up to 4 over 43 symbols, seeded grammar-derived documents with single/double-edit mutations from a hostile byte set (all invalid-UTF-8 classes), number/literal/escape families, deep nesting; accept/reject must agree and no exception of any type may escape; generated / mutated documents and swept strings with non-ASCII bytes are parsed a second time through a buffer_input fed 1-3 bytes per read.",
             "Trusts cpp/oracles/json_rfc8259.hpp (cross-checked against Python's strict json on 381k strings) and utf_codec.hpp.", "5/C14"),
     "C16": ("differential monitor: raw_string with a content action vs an independent long-bracket scanner; cursor discipline checked under rewind_mode::required",
-            "Exploration: all strings up to length 9 (primary) / 8 (other instantiations and eol policies) over {Open, Marker, Close, LF, CR, a}, seeded long strings with near-miss closes, three bracket triples, four content-rule variants, five eol policies, eager/lazy, embedded under sor/opt/star; matched, consumed, content span must agree; local failure must leave the cursor where it started.",
+            "Exploration: all strings up to length 9 (primary) / 8 (other instantiations and eol policies) over {Open, Marker, Close, LF, CR, a}, seeded long strings with near-miss closes, three bracket triples, four content-rule variants, five eol policies, eager/lazy, embedded under sor/opt/star; matched, consumed, content span must agree; local failure must leave the cursor where it started; every case also runs with actions attached but disabled (apply_mode::nothing: same verdict, no action call) and through buffer_inputs fed 1 and 3 bytes per read.",
             "Trusts cpp/oracles/lua_longbracket.hpp; nullable content rules are not instantiated (the real rule would loop).", "5/C16"),
     "C17": ("reference-model monitor (independent UTF-8 encoder / surrogate model) over exhaustive code-point sweep and enumerated escape tuples, ASan+UBSan build",
             "Exploration: the real helpers run (directly and through the real JSON/example grammars) beside an independent encoder; utf8_append_utf32, 4-digit unescape_u and unescape_x are swept completely, unescape_j over all 1-3 tuples of 16 boundary units plus seeded random tuples. Held = no disagreement on the executions produced.",
             "Trusts cpp/oracles/utf_codec.hpp and the enumeration; escapes longer than 4 consecutive \\u groups are only sampled.", "5/C17"),
     "C18": ("invariant monitor at the control hooks inside the guards: own nesting count vs current_depth(), in.end() vs start + min(N, remaining), restoration after every outcome",
-            "Exploration: four recursive grammars x N 0..6 x all short bracket strings and structured nestings 0..9 with success / local failure / exception outcomes; eight byte-limited rule kinds starting at every offset 0..10, N 0..6, at top level, inside rematch, nested limits, under try_catch; results compared with the unguarded rule on exactly the window bytes.",
+            "Exploration: four recursive grammars x N 0..6 x all short bracket strings and structured nestings 0..9 with success / local failure / exception outcomes; eight byte-limited rule kinds starting at every offset 0..10, N 0..6, at top level, inside rematch, nested limits, under try_catch; results compared with the unguarded rule on exactly the window bytes; the depth part also with the guard attached and the run started with apply_mode::nothing.",
             "Trusts the small models in cpp/drivers/c18_limits.cpp.", "5/C18"),
     "C19": ("reference-model monitor: at/begin_of_line/end_of_line/line_at vs an independent line splitter, pointers compared as integers before any dereference",
-            "Exploration: all strings up to length 8 over {LF, CR, a, b}, every offset, five eol policies, eager/lazy, default and non-default initial counters, positions taken from real runs (bytes<k>, eol-aware rules, actions, parse_errors), exact-size and poisoned-tail buffers. Offsets inside a two-byte line ending accept either neighbouring line.",
+            "Exploration: all strings up to length 8 over {LF, CR, a, b}, every offset, five eol policies, eager/lazy, default and non-default initial counters, positions taken from real runs (bytes<k>, eol-aware rules, actions, parse_errors, parse_errors thrown from inside limit_bytes / rematch sections of the same input object), exact-size and poisoned-tail buffers. Offsets inside a two-byte line ending accept either neighbouring line.",
             "Trusts cpp/oracles/lines.hpp. Three known findings (initial byte ignored by at(); crlf and cr_crlf line counting).", "5/C19"),
     "C20": ("differential monitor: real uri rules + eof vs a set-of-end-positions (fully backtracking) RFC 3986 recogniser, window hook + poisoned digit tail",
-            "Exploration: all strings up to length 5 over a 16-symbol URI alphabet (6 over an 11-symbol core), RFC-derived random derivations with single-edit mutants, systematic IPv4/IPv6 families bare and inside four host templates, IPv4-prefixed reg-names; accept/reject must agree for URI, URI_reference, absolute_URI, IPv4address, IPv6address; only parse_error may be thrown; results must not depend on bytes behind the end.",
+            "Exploration: all strings up to length 5 over a 16-symbol URI alphabet (6 over an 11-symbol core), RFC-derived random derivations with single-edit mutants, systematic IPv4/IPv6 families bare and inside four host templates, IPv4-prefixed reg-names; accept/reject must agree for URI, URI_reference, absolute_URI, IPv4address, IPv6address; only parse_error may be thrown; a third run per case with apply_mode::nothing, rewind_mode::required and lazy tracking must give the same verdict; results must not depend on bytes behind the end.",
             "Trusts cpp/oracles/uri_rfc3986.hpp (cross-checked against inet_pton for the IP literals).", "5/C20"),
 }
 
